@@ -7,6 +7,18 @@ HERE = os.path.dirname(os.path.dirname(os.path.abspath(__file__)))
 
 # id -> (built?, technique, level text, level note, design ref)
 CHECKS = {
+ "C01": (True, "exhaustive value-space enumeration (all values of small types, boundary lattice, product domains) through the real encoder and decoder",
+         "Every value of the small exhaustive domain of each of ~120 concrete instantiations of the built-in Encode/Decode impls is encoded and decoded back (alone and followed by 00/ff) and compared through an independent mapping to the data model; scalars are swept exhaustively (16-bit types and char always, all 2^32 u32/i32/f32 in the thorough tier).",
+         "trusted: ToModel mapping in harness/checks/src/types.rs, refmodel::shape::canon; 64-bit scalars are covered on the 2^k +- 3 lattice, not exhaustively", "5/C01"),
+ "C03": (True, "exhaustive argument enumeration of Encoder methods + explicit-state DFS over balanced Encoder call sequences against an independent RFC 8949 parser/encoder",
+         "All arguments of every Encoder method (exhaustive up to 16 bits, 2^32 in the thorough tier, lattice for 64 bits), all small-domain values of the built-in Encode impls and every balanced call sequence up to depth 5/6 are executed on the real encoder; output must parse as exactly the expected items with the independent parser and be byte-identical to the reference preferred serialisation.",
+         "trusted: refmodel parser/encoder (RFC 8949 App. C transcription, self-checked by parse(encode(i)) == i); Encoder::simple(20..=31) recorded as known findings", "5/C03"),
+ "C05": (True, "exhaustive product enumeration of (sign, head width, argument) x 24 integer targets with i128 oracle",
+         "Every integer item (both signs, every head width able to hold the argument; all arguments < 2^16 and the 64-bit lattice, all 2^32 at widths 4/8 in the thorough tier) is decoded through every integer accessor/type, Int, char and the NonZero types; result must be Ok(n) iff n is representable; datatype() must name an accepting accessor; Int conversions checked on the lattice.",
+         "trusted: i128 arithmetic; 64-bit arguments on the lattice only", "5/C05"),
+ "C12": (True, "exhaustive enumeration of float bit patterns against bit-level IEEE 754 reference conversions",
+         "All 65536 half patterns, a 2^24-ish lattice (thorough: all 2^32) of single patterns and a sign/exponent x boundary-mantissa lattice of double patterns are decoded through f16/f32/f64 and re-encoded; explicit half encoding is compared with a reference round-to-nearest-even conversion.",
+         "trusted: refmodel::float (independent of the half crate, cross-checked against std widening); f64 space is a lattice", "5/C12"),
  "C14": (True, "deviation-bounded stateless exploration of a scripted std::io::Read / Write (all read compositions x Interrupted placements x truncation points)",
          "Every schedule in which a scripted blocking source fragments the stream (all compositions of every read), injects up to N Interrupted errors and ends the stream at every byte offset is executed against the real Reader and compared with a list-of-values model; the Writer is explored the same way over all short-write splits. Exhaustive within the stated stream-length and deviation bounds.",
          "trusted: the list-of-values model in harness/checks/src/io_common.rs, the explorer (mcx::explore), rustc; streams longer than the bound and more Interrupted errors than the budget are not explored", "5/C14"),
